@@ -33,7 +33,7 @@ var c07RouteFields = []string{"NodeID", "UpdateID", "UpdateEpoch", "UpdateSequen
 var c07AdFields = []string{"NodeID", "Service", "Time", "ConnType", "Tags", "WorkCommands", "Cancel"}
 
 var c07Kinds = []string{"empty", "onebyte", "random", "route-body", "ad-body", "route-field", "ad-field", "route-absurd", "ad-absurd",
-	"data-short", "data-hdr", "data-reserved", "data-big", "reject", "unknown-type", "frame-raw", "ad-cancel-unknown", "route-dupkeys", "deep-json", "ad-empty-obj", "route-negcost"}
+	"data-short", "data-hdr", "data-reserved", "data-big", "reject", "unknown-type", "frame-raw", "ad-cancel-unknown", "route-dupkeys", "deep-json", "ad-empty-obj", "route-negcost", "hello-impersonate", "hello-impersonate"}
 
 func genC07(seed uint64, tier string) any {
 	r := simnet.NewRng(seed, "c07")
@@ -44,6 +44,9 @@ func genC07(seed uint64, tier string) any {
 	}
 	for i := 0; i < n; i++ {
 		in := c07Input{T: simnet.Pick(r, []string{"dgram", "framed"}), Pre: r.Bool(0.3), Kind: simnet.Pick(r, c07Kinds), A: r.Intn(1 << 16), B: r.Intn(1 << 16)}
+		if in.Kind == "hello-impersonate" {
+			in.Pre = true
+		}
 		if in.Kind == "random" || in.Kind == "frame-raw" {
 			in.S = fmt.Sprintf("%x", r.Bytes(r.Range(1, 80)))
 		}
@@ -137,6 +140,13 @@ func c07Render(in c07Input, c *c07Ctx) []byte {
 		case 7:
 			m["NodeID"], m["Connections"] = "localhost", map[string]float64{"localhost": 1}
 		}
+		b, _ := json.Marshal(m)
+		return append([]byte{simnet.MsgRoute}, b...)
+	case "hello-impersonate":
+		// a handshake (first routing message on a session) claiming the identity of a well-behaved peer or of the victim
+		m := baseRoute()
+		who := pick([]string{c.a, c.b, c.victim, c.a, c.b}, in.A)
+		m["NodeID"], m["ForwardingNode"] = who, who
 		b, _ := json.Marshal(m)
 		return append([]byte{simnet.MsgRoute}, b...)
 	case "route-negcost":
